@@ -122,6 +122,9 @@ def judge_table(ctx, case, resp):
         labels = ["pattern=" + info["pattern"], "hp=%s/%s" % (T["hp"], info["pattern"])] + base_labels
         if default_fires:
             labels.append("default-fires")
+        for c in T["inputs"]:
+            if c["kind"] in M.TEMPORAL:
+                labels.append("input-kind=%s/%s" % (c["kind"], "unspecified" if ref is R.UNSPEC else info["pattern"]))
         if ref is R.UNSPEC:
             labels = ["unspecified:" + info["unspec"]] + labels
         ctx.note(key=[T, tup], nontrivial=nontrivial and ref is not R.UNSPEC, labels=labels,
@@ -158,7 +161,7 @@ def judge_table(ctx, case, resp):
 
 def gen_case(src):
     drawable = src.bool(0.5)
-    T = M.gen_table(src, max_inputs=4, max_outputs=3, min_rules=0, max_rules=8, drawable=drawable)
+    T = M.gen_table(src, max_inputs=4, max_outputs=3, min_rules=0, max_rules=8, drawable=drawable, temporal=not drawable)
     tuples = R.derive_tuples(src, T, 6)
     text = None
     if drawable and M.is_drawable(T):
@@ -212,7 +215,7 @@ def setup(ctx):
 def run(ctx):
     ctx.enumerate(ctx.p_grid, grid_cases(ctx), batch=100, name="3 rules x 8 match subsets x output arrangements x hit policies",
                   exhaustive=True)
-    ctx.forall(ctx.p_tables, ctx.scale(9000, 300000), batch=100)
+    ctx.forall(ctx.p_tables, ctx.scale(9000, 1500000), batch=100)
 
 
 if __name__ == "__main__":
